@@ -290,9 +290,15 @@ func cacheCheckStep(t failer, prop string, rc *realCache, m *cacheModel, fam []*
 	return changed, len(evs)
 }
 
-func cacheWalk(t *testing.T, prop string) {
+func cacheWalk(t *testing.T, prop string) { rapid.Check(t, cacheWalkProp(prop)) }
+
+// FuzzC01 / FuzzC02: the cache state machine under Go's coverage-guided fuzzer (thorough tier).
+func FuzzC01(f *testing.F) { f.Fuzz(rapid.MakeFuzz(cacheWalkProp("C01"))) }
+func FuzzC02(f *testing.F) { f.Fuzz(rapid.MakeFuzz(cacheWalkProp("C02"))) }
+
+func cacheWalkProp(prop string) func(*rapid.T) {
 	fam := cacheFilterFamily()
-	rapid.Check(t, func(t *rapid.T) {
+	return func(t *rapid.T) {
 		f0 := rapid.IntRange(0, len(fam)-1).Draw(t, "filter0")
 		rc := newRealCache(fam[f0])
 		defer func() {
@@ -400,7 +406,7 @@ func cacheWalk(t *testing.T, prop string) {
 		}
 		desc := strings.Join(ops, "; ")
 		statCase(prop, hashString(desc), nt, func() interface{} { return ops }, labels...)
-	})
+	}
 }
 
 func TestC01_Random(t *testing.T) { cacheWalk(t, "C01") }
